@@ -407,6 +407,9 @@ func convertValue(v reflect.Value, typ reflect.Type) (reflect.Value, error) {
 		cv := reflect.New(typ).Elem()
 		cv.SetFloat(v.Float())
 		return cv, nil
+	case (kind == reflect.String || kind == reflect.Bool) && v.Kind() == kind:
+		// a named string or bool type
+		return v.Convert(typ), nil
 	case kind == reflect.Slice && v.Kind() == reflect.Slice && typ.Elem().Kind() != reflect.Uint8:
 		cv := reflect.MakeSlice(typ, v.Len(), v.Len())
 		for i := 0; i < v.Len(); i++ {
